@@ -8,6 +8,7 @@ import build, obs, streams
 TIERS = {
     # stream -> (quick params, thorough params)
     "fn_c04": ({"n": 6000}, {"n": 120000}),
+    "own": ({"n": 120}, {"n": 4000}),
     "matrix": ({"shards": 4, "histories": 4, "length": 40}, {"shards": 16, "histories": 40, "length": 60}),
     "world": ({"shards": 8, "histories": 30, "length": 60}, {"shards": 16, "histories": 500, "length": 80}),
     "world_mini": ({"shards": 4, "histories": 30, "length": 60}, {"shards": 16, "histories": 250, "length": 80}),
